@@ -1841,11 +1841,16 @@ package ion
 // The constructors hand the shared tables to the builder, or keep the fixed table to be
 // written before the first value (C11).
 //@ func NewSymbolTableBuilder
-//@ trusted thin: called by contract (processImports is not under contract)
+//@ requires len(imports) < 1<<30 && V1SystemSymbolTable.MaxID() < 1<<31
+//@ requires forall i int :: 0 <= i && i < len(imports) ==> imports[i] != nil
+//@ requires forall i int :: 0 <= i && i < len(imports) ==> imports[i].MaxID() < 1<<31
 //@ modifies nothing
-//@ ensures result != nil
+//@ ensures[C09,C11] result != nil && vcIsBuilder(result) && lstWF(&vcAsBuilder(result).lst) && vcAsBuilder(result).index != nil && len(vcAsBuilder(result).symbols) == 0
 
 //@ func NewBinaryWriter
+//@ requires len(sts) < 1<<30 && V1SystemSymbolTable.MaxID() < 1<<31
+//@ requires forall i int :: 0 <= i && i < len(sts) ==> sts[i] != nil
+//@ requires forall i int :: 0 <= i && i < len(sts) ==> sts[i].MaxID() < 1<<31
 //@ atcall[C11] NewSymbolTableBuilder len(a0) == len(sts) && vcSameArray(a0, sts)
 //@ ensures[C11] result != nil && vcAsBinaryWriter(result) != nil && vcAsBinaryWriter(result).lst == nil && vcAsBinaryWriter(result).lstb != nil && vcAsBinaryWriter(result).err == nil
 
@@ -2066,6 +2071,10 @@ package ion
 //@ split returns
 //@ requires len(imports) < 1<<30
 //@ requires forall i int :: 0 <= i && i < len(imports) ==> imports[i] != nil
+//@ requires forall i int :: 0 <= i && i < len(imports) ==> imports[i].MaxID() < 1<<31
+//@ requires V1SystemSymbolTable.MaxID() < 1<<31
+//@ invariant loop0 [idx_ int, maxID uint64] maxID <= uint64(idx_+1)<<31
+//@ invariant loop0 [imps []SharedSymbolTable] forall k int :: 0 <= k && k < len(imps) ==> imps[k].MaxID() < 1<<31
 //@ invariant loop0 [idx_ int, maxID uint64, offsets []uint64, imps []SharedSymbolTable] -1 <= idx_ && idx_ < len(imps) && len(offsets) == len(imps) && len(imps) >= 1
 //@ invariant loop0 [idx_ int, maxID uint64, offsets []uint64, imps []SharedSymbolTable] idx_ >= 0 ==> offsets[0] == 0
 //@ invariant loop0 [idx_ int, maxID uint64, offsets []uint64, imps []SharedSymbolTable] idx_ >= 0 ==> maxID == offsets[idx_]+imps[idx_].MaxID()
@@ -2077,4 +2086,20 @@ package ion
 //@ ensures[C09] forall i int :: 0 <= i && i < len(result0) ==> result0[i] != nil
 //@ ensures[C09] forall i int :: 0 <= i && i < len(result0)-1 ==> result1[i+1] == result1[i]+result0[i].MaxID()
 //@ ensures[C09] result2 == result1[len(result1)-1]+result0[len(result0)-1].MaxID()
+//@ ensures[C09] result2 <= uint64(len(imports)+1)<<31 && len(result0) <= len(imports)+1
+//@ safe[C06,C09]
+
+// The constructors establish the representation invariant the lookups assume (C09, C10): a
+// local table's imports start with the system table, its offsets are the running sums, its
+// local symbols are a copy of the given ones in order.
+//@ func NewLocalSymbolTable
+//@ requires len(imports) < 1<<30 && len(symbols) < 1<<30
+//@ requires forall i int :: 0 <= i && i < len(imports) ==> imports[i] != nil
+//@ requires forall i int :: 0 <= i && i < len(imports) ==> imports[i].MaxID() < 1<<31
+//@ requires V1SystemSymbolTable.MaxID() < 1<<31
+//@ modifies nothing
+//@ ensures[C09,C10] result != nil && vcIsLST(result) && lstWF(vcAsLST(result))
+//@ ensures[C09,C10] len(vcAsLST(result).symbols) == len(symbols)
+//@ ensures[C09,C10] forall i int :: 0 <= i && i < len(symbols) ==> vcAsLST(result).symbols[i] == symbols[i]
+//@ ensures[C09,C10] vcAsLST(result).maxImportID == vcAsLST(result).offsets[len(vcAsLST(result).offsets)-1]+vcAsLST(result).imports[len(vcAsLST(result).imports)-1].MaxID()
 //@ safe[C06,C09]
